@@ -61,6 +61,47 @@ def _operands(e):
   return []
 
 
+# "Drain" loops: a while whose test is exactly one level deep (a call, an attribute, a `not`)
+# and whose body holds only statements the transformer has no visitor for; the loop is the
+# tail of the function. Laziness of the test cannot be preserved: the transformer must reject
+# these (ValueError), never emit a loop over an undefined temporary.
+DRAIN_LOOPS = [
+    ('drain:call_test_pass_body', '''def f(x, n, b, xs):
+  it = iter(xs + [1] * n + [0])
+  while next(it):
+    pass
+'''),
+    ('drain:not_test_continue_body', '''def f(x, n, b, xs):
+  it = iter([0] * n + xs + [1])
+  t(1, n)
+  while not next(it):
+    continue
+'''),
+    ('drain:tracer_test_in_branch', '''def f(x, n, b, xs):
+  q = list(xs) + [0]
+  if b:
+    t(1, x)
+  else:
+    while t(2, q.pop(0)) if False else q.pop(0):
+      pass
+'''),
+    ('drain:attribute_test', '''class _Src(object):
+  def __init__(self, k):
+    self.k = k
+  @property
+  def more(self):
+    t(7, self.k)
+    self.k = self.k - 1
+    return self.k > 0
+
+def f(x, n, b, xs):
+  src = _Src(n)
+  while src.more:
+    pass
+'''),
+]
+
+
 def classify(p, m, r):
   """Structural patterns of the two listed evaluation-order findings."""
   tags = set()
@@ -134,6 +175,7 @@ def run(tier):
   else:
     progs = anfgen.programs(700, R.seed + 41) + anfgen.programs(150, R.seed + 42, lazy=True, prefix='anflazy')
   progs += [gen.Prog(n, s, {'witness'}) for n, s in WITNESS]
+  progs += [gen.Prog(n, s, {'anf', 'lazy'}) for n, s in DRAIN_LOOPS]
   rnd = random.Random(R.seed + 43)
   tasks, meta = [], []
   bounds = {'n': 2, 'len': 1}
